@@ -5,6 +5,7 @@ package c14
 import (
 	"fmt"
 	"math/rand"
+	"sync"
 
 	kitring "github.com/dapr/kit/ring"
 
@@ -25,47 +26,112 @@ func deref(p *int) int {
 	return *p
 }
 
+// bufRun is the record of one sequence; the goroutine that executes it may be
+// abandoned by the watchdog, so the record is only read under its mutex.
+type bufRun struct {
+	mu    sync.Mutex
+	evs   []tv.M
+	in    string // the operation in flight
+	given bool   // abandoned: later records are dropped
+}
+
+func (r *bufRun) ev(m tv.M) {
+	r.mu.Lock()
+	if !r.given {
+		r.evs = append(r.evs, m)
+	}
+	r.mu.Unlock()
+}
+
+func (r *bufRun) enter(op string) {
+	r.mu.Lock()
+	r.in = op
+	r.mu.Unlock()
+}
+
+// runaway: a Range that has called back this often (no queue here ever holds more than a few hundred
+// elements) will never stop by itself; the callback then ends it and the call is recorded as never returning.
+const runaway = 100000
+
 // runBuf executes the mutation string on a fresh Buffered and records, after
-// every mutation, Len, Front, a complete Range and a Range stopped early.
-func runBuf(b *tv.Batch, c bufCase) (panicked string) {
-	b.Start(tv.M{"isz": c.Isz, "bsz": c.Bsz})
-	defer func() {
-		if p := recover(); p != nil {
-			panicked = fmt.Sprint(p)
-			b.Ev("op", tv.M{"op": "remove", "v": 0, "n": 0, "res": -7}) // a record the model rejects
+// every mutation, Len, Front, a complete Range and a Range stopped early.  The
+// whole sequence runs under a watchdog: an operation that does not come back
+// is recorded as {op: "hung", in: <operation>}, which the queue model rejects.
+func runBuf(b *tv.Batch, c bufCase) (hung, timedOut bool) {
+	r := &bufRun{}
+	done := make(chan struct{})
+	go func() {
+		defer close(done)
+		defer func() {
+			if p := recover(); p != nil {
+				r.ev(tv.M{"op": "panic", "in": r.in, "what": fmt.Sprint(p)}) // a record the model rejects
+			}
+		}()
+		q := kitring.NewBuffered[int](c.Isz, c.Bsz)
+		next := 0
+		obs := func(step int) bool {
+			full := []int{}
+			r.enter("range")
+			q.Range(func(p *int) bool { full = append(full, deref(p)); return len(full) < runaway })
+			if len(full) >= runaway {
+				r.ev(tv.M{"op": "hung", "in": "range"})
+				return false
+			}
+			n := 1 + step%3
+			part := []int{}
+			q.Range(func(p *int) bool { part = append(part, deref(p)); return len(part) < n })
+			r.enter("len")
+			l := q.Len()
+			r.enter("front")
+			f := deref(q.Front())
+			r.ev(tv.M{"op": "obs", "len": l, "front": f, "range": full, "n": n, "prange": part})
+			return true
+		}
+		if !obs(0) {
+			return
+		}
+		for i, m := range c.Muts {
+			switch m {
+			case 'A', 'Z':
+				next++
+				v := next
+				if m == 'Z' || next%3 == 0 {
+					v = 0
+				}
+				r.enter("append")
+				q.AppendBack(&v)
+				r.ev(tv.M{"op": "append", "v": v, "n": 0, "res": 0})
+			case 'N':
+				r.enter("append")
+				q.AppendBack(nil)
+				r.ev(tv.M{"op": "append", "v": -1, "n": 0, "res": 0})
+			default:
+				r.enter("remove")
+				x := q.RemoveFront()
+				r.ev(tv.M{"op": "remove", "v": 0, "n": 0, "res": deref(x)})
+			}
+			if !obs(i + 1) {
+				return
+			}
 		}
 	}()
-	q := kitring.NewBuffered[int](c.Isz, c.Bsz)
-	next := 0
-	obs := func(step int) {
-		full := []int{}
-		q.Range(func(p *int) bool { full = append(full, deref(p)); return true })
-		n := 1 + step%3
-		part := []int{}
-		q.Range(func(p *int) bool { part = append(part, deref(p)); return len(part) < n })
-		b.Ev("op", tv.M{"op": "obs", "len": q.Len(), "front": deref(q.Front()), "range": full, "n": n, "prange": part})
+	if !waitTimeout(done, watchdog) {
+		r.mu.Lock()
+		r.given = true
+		r.evs = append(r.evs, tv.M{"op": "hung", "in": r.in})
+		r.mu.Unlock()
+		timedOut = true
 	}
-	obs(0)
-	for i, m := range c.Muts {
-		switch m {
-		case 'A', 'Z':
-			next++
-			v := next
-			if m == 'Z' || next%3 == 0 {
-				v = 0
-			}
-			q.AppendBack(&v)
-			b.Ev("op", tv.M{"op": "append", "v": v, "n": 0, "res": 0})
-		case 'N':
-			q.AppendBack(nil)
-			b.Ev("op", tv.M{"op": "append", "v": -1, "n": 0, "res": 0})
-		default:
-			r := q.RemoveFront()
-			b.Ev("op", tv.M{"op": "remove", "v": 0, "n": 0, "res": deref(r)})
+	r.mu.Lock()
+	defer r.mu.Unlock()
+	b.Start(tv.M{"isz": c.Isz, "bsz": c.Bsz})
+	for _, m := range r.evs {
+		b.Ev("op", m)
+		if m["op"] == "hung" {
+			hung = true
 		}
-		obs(i + 1)
 	}
-	return ""
+	return hung, timedOut
 }
 
 // allMutationStrings: every string over {A, R} of exactly length n in which
